@@ -13,6 +13,14 @@ structure IncEncoder (σ : Type) where
   law : ∀ s a b, feed s (a ++ b) = ((feed (feed s a).1 b).1, (feed s a).2 ++ (feed (feed s a).1 b).2)
   nil : ∀ s, feed s [] = (s, [])
 
+/-- a stateless encoder that maps each code point to its bytes (utf-8, latin-1, ascii: what `codecs.getincrementalencoder`
+    gives for the stateless codecs) -/
+def mapEnc (f : Nat → List Byte) : IncEncoder Unit where
+  init := ()
+  feed := fun s a => (s, a.flatMap f)
+  law := by intro s a b; simp
+  nil := by intro s; rfl
+
 inductive Dir | read | send deriving DecidableEq, Repr
 
 /-- a log file sees `write(s)` then `flush()` -/
